@@ -374,10 +374,10 @@ class Ref:
 
 
 class Bool:
-    __slots__ = ('val', 'cond', 'data')
+    __slots__ = ('val', 'cond', 'data', 'cmp')
 
-    def __init__(self, val=None, cond=None, data=False):
-        self.val, self.cond, self.data = val, cond, data     # cond: ('eq0', RF) meaning "true iff RF == 0"
+    def __init__(self, val=None, cond=None, data=False, cmp=None):
+        self.val, self.cond, self.data, self.cmp = val, cond, data, cmp     # cond: ('eq0', RF) meaning "true iff RF == 0"
 
 
 def is_top(v):
@@ -443,6 +443,7 @@ class Run:
         self.dim_events = []      # dimensionally inconsistent operations met on this path
         self.label_popped = False
         self.pushed = []
+        self.dd = []              # data-dependent decisions of this path: ((op, a, b) or None, outcome)
 
     def choose(self, n):
         if self.pos < len(self.script):
@@ -631,7 +632,7 @@ class Run:
             if isinstance(a, Aff) and isinstance(b, Aff):
                 if a.lin or b.lin:
                     self.compare_dims(op, a, b, dim_of(a), dim_of(b))
-                    return Bool(None, None, True)
+                    return Bool(None, None, True, (op, a, b))
                 d = a.c - b.c
                 if d.is_const():
                     x = d.const_value()
@@ -731,6 +732,8 @@ class Run:
             c = self.choose(len(alts))
             v, b = alts[c]
             truth = (v == 1) if v is not None else not any(x == 1 for x, _ in targets)
+            if d.data:
+                self.dd.append((d.cmp, truth))
             if d.cond is not None:
                 kind, rf = d.cond
                 NEG = {'eq0': ('ne0', 1), 'ne0': ('eq0', 1), 'gt0': ('ge0', -1), 'ge0': ('gt0', -1)}
@@ -824,7 +827,10 @@ class Run:
                 c = v.cond
                 if c is not None:
                     c = {'eq0': ('ne0', c[1]), 'ne0': ('eq0', c[1]), 'gt0': ('ge0', -c[1]), 'ge0': ('gt0', -c[1])}[c[0]]
-                return Bool(None if v.val is None else not v.val, c, v.data)
+                nc = None
+                if v.cmp is not None:
+                    nc = ({'Eq': 'Ne', 'Ne': 'Eq', 'Lt': 'Ge', 'Ge': 'Lt', 'Gt': 'Le', 'Le': 'Gt'}[v.cmp[0]], v.cmp[1], v.cmp[2])
+                return Bool(None if v.val is None else not v.val, c, v.data, nc)
             return TOP
         if k == 'discr':
             v = self.read(loc, r['pl'])
